@@ -65,10 +65,16 @@ def read_tree(root: str) -> Dict[str, bytes]:
     return out
 
 
-def export(image_path: str) -> Tuple[CliResult, Dict[str, bytes], List[str]]:
-    """Returns (cli result, {relative path: file bytes}, list of 'Exported' paths)."""
+def export(image_path: str, prefill: Dict[str, bytes] | None = None) -> Tuple[CliResult, Dict[str, bytes], List[str]]:
+    """Returns (cli result, {relative path: file bytes}, list of 'Exported' paths).
+    prefill: files that already lie in the destination before the export (an earlier run into the same directory)."""
     dest = scratch_dir("exp")
     try:
+        for rel, b in (prefill or {}).items():
+            pth = os.path.join(dest, rel)
+            os.makedirs(os.path.dirname(pth), exist_ok=True)
+            with open(pth, "wb") as f:
+                f.write(b)
         r = run_cli(["export", image_path, "-d", dest])
         tree = read_tree(dest)
     finally:
